@@ -764,6 +764,14 @@ def _correspondence(ctx, rng, quick, work):
     pipes += [[b",1..2\n"], [b"a,12\n"], [b",\n"], [b"x,1.2.3.4\nx,5.6.7.8\n"], [b"b,1.1.1.1\n", b"a,2.2.2.2\n", b"b,3.3.3.3\n"],
               [b"host-1.example.org,192.168.100.200\n"], [b"a" * 106 + b",255.255.255.255\n"], [b"UP.low_-,0.0.0.0\n"]]
 
+    # very long (well-formed) names: the HOST line crosses every plausible reader limit
+    for n in [107, 127, 128, 129, 253, 254, 255, 256, 257, 300, 494, 495, 496, 511, 512, 513, 1000, 1023, 1024, 1025,
+              2047, 2048, 2049, 4095, 4096, 4097, 8191, 8192, 8193, 20000, 60000] + [rng.randint(130, 9000) for _ in range(20)]:
+        nm = bytes(rng.choice(b"abcxyz019-_.") for _ in range(n))
+        for ip in (b"10.11.12.13", b"255.255.255.255", b"1.2.3.4"):
+            pipes.append([nm + b"," + ip + b"\n", b"after,9.9.9.9\n"])
+            pipes.append([b"first,1.1.1.1\n" + nm + b"," + ip + b"\nlast,2.2.2.2\n"])
+
     def run_pipes(got_host_list, pfile):
         return [client_payloads(got_host_list, pfile, ps) for ps in pipes]
     cimpl = with_client(run_pipes)
@@ -771,17 +779,35 @@ def _correspondence(ctx, rng, quick, work):
     pout = ctx.run_driver(plines)
     for ps, (st, data), o in zip(pipes, cimpl, pout):
         ls = split_lines(data)
-        if any(len(l) > 128 for l in ls):
-            ctx.count("pipeline_skipped_F5_long_host_line")      # C13's territory
-            continue
+        long_line = any(len(l) > 128 for l in ls)
+        if long_line:
+            # the model's helper theorems are stated for HOST lines of at most 128 bytes (their hypothesis);
+            # longer ones are judged by the oracles below on the real code only
+            ctx.count("pipeline_with_host_line_over_128_bytes")
         h = impl_helper(work, data)
         i = "%s %s | %s" % (st, h["status"], ";".join(hx(l) for l in h["lines"]))
         ctx.case(("pipe", tuple(ps)), nontrivial=bool(h["lines"]),
                  sample=smp({"kind": "pipeline", "payloads": [repr(p[:60]) for p in ps], "hosts_lines": [l.decode("latin-1") for l in h["lines"]][:3]} if h["lines"] else None))
         ctx.count("pipeline_helper_" + h["status"].split(" ")[0])
-        if i != o:
+        if i != o and not long_line:
             ctx.disagree("client+helper pipeline", [hx(p)[:200] for p in ps], i[:400], o[:400])
         rp = {"stage": "pipeline", "payloads": [hx(p) for p in ps]}
+        if long_line and st == "OK":
+            # every record the client forwarded must appear as exactly one well-formed line, under its own name
+            want = {}
+            for l in ls:
+                if l.startswith(b"HOST ") and b"," in l:
+                    nm, ip = l[5:].rstrip(b"\n").split(b",", 1)
+                    want[nm] = ip
+            have = {}
+            for l in h["lines"]:
+                f = l.split()
+                if len(f) >= 2:
+                    have[f[1]] = f[0]
+            if have != want:
+                ctx.violation("a forwarded host record with a very long name did not arrive as its own hosts-file line",
+                              dict(rp, name_lengths=sorted(len(k) for k in want), helper=h["status"],
+                                   missing=[k[:40].decode("latin-1") for k in want if have.get(k) != want[k]][:3]))
         bad = [l.decode("latin-1") for l in h["lines"] if not line_ok(l)]
         if bad:
             ctx.violation("hosts-file line is not '<dotted quad> <name> <marker>'", dict(rp, bad_lines=bad[:3]))
@@ -794,7 +820,6 @@ def _correspondence(ctx, rng, quick, work):
     ctx.programs = ctx.evaluations
     if f26_seen:
         ctx.notes.append("a scanner line longer than 61439 bytes made Mux.send's assertion fail in the real server (F26, excluded by hypothesis)")
-    ctx.notes.append("HOST lines longer than 128 bytes are read by the helper in pieces (F5, property C13): pipelines containing one are not compared")
 
 
 def replay(ctx, rp):
